@@ -1,7 +1,214 @@
-//! C10 - placeholder, replaced below.
-use crate::model::Analysis;
-use crate::oracle::{Aux, Tally, Violation};
+//! C10 - protocol identification is decided by leading bytes against the signature set.
+//!
+//! Reference: the published signatures with true wildcard semantics, first signature
+//! completed (apps/sig.rs). Over UDP the decision is observed through which responder's reply
+//! comes back; over TCP it is read directly from the node (guarded table probe) after every
+//! segment of a replayed flow, whatever the handler then does with the bytes.
 
-pub fn check(_a: &Analysis, _aux: &mut Aux, _t: &mut Tally) -> Vec<Violation> {
-    Vec::new()
+use crate::apps::sig::{self, identify_reply, Decision};
+use crate::apps::{http, rpc, smb, ssh, stun, App};
+use crate::model::Analysis;
+use crate::oracle::{mk_tcp, Aux, Tally, Verdict, Violation};
+use crate::wire::*;
+
+/// Is `p` a complete valid request of the protocol of signature `s` (reference classifiers)?
+fn valid_request(s: &sig::Sig, p: &[u8], tcp: bool) -> bool {
+    match s.app {
+        App::Http => matches!(http::classify(p), http::HttpClass::Complete { end, .. } if end == p.len()),
+        App::Ssh => matches!(ssh::classify(p), ssh::SshClass::Complete { .. }),
+        App::Ghost => true,
+        App::Stun => stun::parse(p)
+            .map(|m| m.is_binding_request() && m.len_matches && m.tiles && m.odd_change_requests() == 0)
+            .unwrap_or(false),
+        App::Rpc => {
+            let body = if s.rpc_tcp_form {
+                if p.len() < 4 || p[0] & 0x80 == 0 || (u32::from_be_bytes([p[0] & 0x7f, p[1], p[2], p[3]]) as usize) != p.len() - 4 {
+                    return false;
+                }
+                &p[4..]
+            } else {
+                p
+            };
+            let _ = tcp;
+            match rpc::parse_call(body) {
+                (rpc::CallClass::Ok, Some(c)) => c.msg_type == 0 && c.rpcvers == 2 && rpc::in_portmap_range(c.prog) && c.proc_ <= 255,
+                _ => false,
+            }
+        }
+        App::Smb1 | App::Smb2 => match smb::classify(p) {
+            smb::SmbClass::Smb1Negotiate { .. } | smb::SmbClass::Smb1SessionSetup | smb::SmbClass::Smb2SessionSetup => true,
+            smb::SmbClass::Smb2Negotiate { dialects } => dialects.iter().any(|d| smb::SMB2_KNOWN.contains(d)),
+            _ => false,
+        },
+        _ => false,
+    }
+}
+
+fn family(a: App) -> App {
+    a
+}
+
+pub fn check(a: &Analysis, aux: &mut Aux, t: &mut Tally) -> Vec<Violation> {
+    let mut v = Vec::new();
+    let sigs = sig::signatures();
+    // ---- datagrams
+    for x in a.udp_exchanges() {
+        let idx = a.steps[x.si].idx;
+        let d = sig::decide(&sigs, x.payload, true);
+        let got = x.reply.and_then(identify_reply);
+        match &d {
+            Decision::Ambiguous => t.any("two-signatures-complete-together"),
+            Decision::Pending => {}
+            Decision::NoMatch => {
+                t.judged(Verdict::Silent, format!("udp|nomatch|{}", match got { Some(App::Dns) => "dns", Some(_) => "sig", None => "silence" }));
+                if let Some(g) = got {
+                    if g != App::Dns {
+                        v.push(Violation {
+                            prop: "C10",
+                            rule: "no-signature-answered".into(),
+                            key: format!("no-signature-answered:{:?}", g),
+                            step: idx,
+                            detail: format!("payload {}.. completes no signature but was answered by the {:?} responder", hex(&x.payload[..x.payload.len().min(16)]), g),
+                        });
+                    }
+                }
+            }
+            Decision::Match { sig: k, at } => {
+                let s = &sigs[*k];
+                let valid = valid_request(s, x.payload, false);
+                t.judged(
+                    if valid { Verdict::Reply } else { Verdict::Any },
+                    format!("udp|{}|valid{}|{}", s.name, valid as u8, if got.is_some() { "reply" } else { "silence" }),
+                );
+                if s.end_anchored {
+                    t.probe("end-anchored-signature-decides");
+                }
+                let _ = at;
+                match got {
+                    Some(g) if family(g) != family(s.app) => v.push(Violation {
+                        prop: "C10",
+                        rule: "wrong-responder".into(),
+                        key: format!("wrong-responder:{}->{:?}", s.name, g),
+                        step: idx,
+                        detail: format!("leading bytes complete {} first, but the {:?} responder answered", s.name, g),
+                    }),
+                    None if valid => {
+                        let why = match sig::shadow_explanation(&sigs, *k, x.payload) {
+                            Some((pos, _, other)) => format!("shadowed@{}<-{}", pos, other.split(':').next().unwrap_or(other)),
+                            None => "unexplained".into(),
+                        };
+                        v.push(Violation {
+                            prop: "C10",
+                            rule: "valid-request-not-served".into(),
+                            key: format!("not-served:{}:{}", s.name, why),
+                            step: idx,
+                            detail: format!("complete valid request whose leading bytes complete {} was not answered by that responder [{}]", s.name, why),
+                        });
+                    }
+                    _ => {}
+                }
+            }
+        }
+    }
+    // ---- streams: replay sampled flows on the second node, probing the identified protocol
+    if aux.samples == 0 {
+        return v;
+    }
+    let cfg = &a.hist.config;
+    let streams = a.tcp_streams();
+    let n = streams.len().max(1);
+    let startk = (aux.pick as usize) % n;
+    let mut done = 0;
+    for q in 0..streams.len() {
+        if done >= aux.samples {
+            break;
+        }
+        let st = &streams[(startk + q) % n];
+        if st.dirty || st.segs.is_empty() || st.cookie.is_none() || st.stream.is_empty() {
+            continue;
+        }
+        let first = &a.steps[st.segs[0].si];
+        let eth = match &first.req.eth {
+            Some(e) => e.clone(),
+            None => continue,
+        };
+        let cookie = st.cookie.unwrap();
+        done += 1;
+        let nonce = aux.nonce.clone();
+        let node = match aux.exec.ensure(cfg, first.clock, &nonce) {
+            Ok(n) => n,
+            Err(e) => {
+                aux.harness_error = Some(format!("{:?}", e));
+                return v;
+            }
+        };
+        let mut sticky: Option<u64> = None;
+        let mut seq = 0x0200_0000u32;
+        for (k, sg) in st.segs.iter().enumerate().take(24) {
+            let payload = &st.stream[sg.off..sg.off + sg.len];
+            let f = mk_tcp(&st.flow, &eth.src, &eth.dst, seq, cookie.wrapping_add(1), F_PSH | F_ACK, payload);
+            seq = seq.wrapping_add(payload.len() as u32);
+            if node.frame(&f).is_err() {
+                break; // a crash is C01's finding
+            }
+            let probe = match node.probe_tcb(cookie) {
+                Ok(p) => p,
+                Err(_) => break,
+            };
+            let got = probe.map(|p| p.0).unwrap_or(0);
+            let prefix = &st.stream[..sg.off + sg.len];
+            let want: Option<u64> = match sticky {
+                Some(id) => Some(id),
+                None => match sig::decide(&sigs, prefix, false) {
+                    Decision::Match { sig: k2, .. } => {
+                        let id = sig::proto_id(&sigs[k2]);
+                        sticky = Some(id);
+                        Some(id)
+                    }
+                    Decision::Ambiguous => None,
+                    _ => Some(0),
+                },
+            };
+            let cut_in_sig = k > 0 && sticky.is_some() && st.segs[0].len < 28;
+            match want {
+                None => {
+                    t.any("two-signatures-complete-together");
+                    break;
+                }
+                Some(w) => {
+                    t.judged(
+                        if w == 0 { Verdict::Silent } else { Verdict::Reply },
+                        format!("tcp|id{}|seg{}|split{}", w, k.min(3), cut_in_sig as u8),
+                    );
+                    if cut_in_sig {
+                        t.probe("signature-split-across-segments");
+                    }
+                    if got != w {
+                        let signame = sigs.iter().find(|s| sig::proto_id(s) == w).map(|s| s.name).unwrap_or("none");
+                        let why = if w != 0 {
+                            let kk = sigs.iter().position(|s| sig::proto_id(s) == w && sig::decide(&sigs, prefix, false) == Decision::Match { sig: sigs.iter().position(|z| z.name == s.name).unwrap(), at: s.pat.len() });
+                            match kk.and_then(|kk| sig::shadow_explanation(&sigs, kk, prefix).map(|e| (kk, e))) {
+                                Some((kk, (pos, _, other))) => format!("{}:shadowed@{}<-{}", sigs[kk].name, pos, other.split(':').next().unwrap_or(other)),
+                                None => format!("{}:unexplained", signame),
+                            }
+                        } else {
+                            "none".into()
+                        };
+                        v.push(Violation {
+                            prop: "C10",
+                            rule: "tcp-identification".into(),
+                            key: format!("tcp-identified-as-{}-expected:{}", got, why),
+                            step: a.steps[sg.si].idx,
+                            detail: format!(
+                                "after segment {} (stream prefix of {} bytes: {}..) the flow is identified as protocol {} but the reference matcher says {} ({})",
+                                k, prefix.len(), hex(&prefix[..prefix.len().min(12)]), got, w, signame
+                            ),
+                        });
+                        break;
+                    }
+                }
+            }
+        }
+    }
+    v
 }
